@@ -317,6 +317,22 @@ def run_c16(tier, out):
             samples.append({'policy': cfgname, 'route': route, 'method': method, 'caller': caller, 'status': r.status})
 
     oplist = ops_list()
+    # --- the FIRST request a freshly loaded process serves is a refused one (nothing - start-up work included - may be done on a
+    #     refused caller's behalf: no SQL write, the stored tables as the start-up left them)
+    for caller, token, roles, want in (('no-credentials', None, '', 401), ('member', 'member', 'member', 403), ('no-roles', 'x', '', 403)):
+        for route, method in (('/resource_providers', 'GET'), ('/traits', 'GET'), ('/resource_classes', 'POST')):
+            fresh = impl.App()
+            raw0 = fresh.raw_dump()
+            r, stmts = issue(fresh, route, method, token, roles, 'p1')
+            raw1 = fresh.raw_dump()
+            note(route, method, caller + '@first-request', r, 'default')
+            writes = [x for x in stmts if str(x).lstrip().split(' ', 1)[0].upper() in ('INSERT', 'UPDATE', 'DELETE')]
+            if r.status != want or raw0 != raw1 or writes:
+                viols.append(({'kind': 'authz', 'policy': 'default', 'route': route, 'method': method, 'caller': caller,
+                               'first_request_of_a_fresh_process': True, 'observed': r.status, 'sql_writes': len(writes)},
+                              '%s %s by %s as the first request of a fresh process answered %d (expected %d), issued %d SQL writes, '
+                              'tables %s' % (method, route, caller, r.status, want, len(writes), 'changed' if raw0 != raw1 else 'unchanged')))
+            fresh.close()
     # --- no credentials
     app = impl.App()
     surface.setup_state(app)
